@@ -56,7 +56,7 @@ func validateAll(c *Ctx, docs []string) ([]verdict, error) {
 	return res, nil
 }
 
-func genValidSwagger(c *Ctx, v *gen.Vocab, withRefs bool) wire.V {
+func genValidSwagger(c *Ctx, v *gen.Vocab, withRefs bool, external bool) wire.V {
 	o := gen.DefaultOptions()
 	o.Valid = true
 	o.GoKeys = false
@@ -66,6 +66,13 @@ func genValidSwagger(c *Ctx, v *gen.Vocab, withRefs bool) wire.V {
 	o.Refs = withRefs
 	if withRefs {
 		o.LocalRefs = map[string][]string{"schema": {"#/definitions/a", "#/definitions/b"}, "parameter": {"#/parameters/p"}, "response": {"#/responses/r"}}
+		if external {
+			// references to whole files (one object per file, no pointer) and to non-pointer fragments: they cannot be
+			// expanded here (the loader has no such documents), but the re-encoding must stay a valid document
+			o.LocalRefs = map[string][]string{"schema": {"#/definitions/a", "models/pet.json", "defs.json#/definitions/x", "defs.json#anchor"},
+				"parameter": {"#/parameters/p", "params/limit.json", "http://example.com/common.json#limit"},
+				"response":  {"#/responses/r", "responses/notfound.json", "common.json#anchor", "http://example.com/errors.json"}}
+		}
 	}
 	g := gen.New(c.Rng, v, o)
 	doc := g.Kind("swagger", 3)
@@ -87,6 +94,27 @@ func genValidSwagger(c *Ctx, v *gen.Vocab, withRefs bool) wire.V {
 			resps = wire.ObjV()
 		}
 		doc = doc.Set("responses", resps.Set("r", og.Kind("response", 2)))
+	}
+	if external {
+		// make sure an operation holds a response that is a reference to a whole file / a non-pointer fragment
+		if paths, ok := doc.Get("paths"); ok && paths.Kind == wire.Obj {
+		outer:
+			for _, pm := range paths.O {
+				if pm.V.Kind != wire.Obj || !strings.HasPrefix(pm.K, "/") {
+					continue
+				}
+				for _, om := range pm.V.O {
+					rs, ok := om.V.Get("responses")
+					if om.V.Kind != wire.Obj || !ok || rs.Kind != wire.Obj {
+						continue
+					}
+					ref := []string{"responses/notfound.json", "common.json#anchor", "http://example.com/errors.json", "../shared/errors.json#"}[c.Intn(4)]
+					rs = rs.Set([]string{"404", "default", "500"}[c.Intn(3)], wire.ObjV(wire.M("$ref", wire.StrV(ref))))
+					doc = doc.Set("paths", paths.Set(pm.K, pm.V.Set(om.K, om.V.Set("responses", rs))))
+					break outer
+				}
+			}
+		}
 	}
 	return doc
 }
@@ -117,7 +145,7 @@ func runC19(c *Ctx) {
 	var withRefs []bool
 	for i := 0; i < n; i++ {
 		wr := i%2 == 1
-		cands = append(cands, genValidSwagger(c, v, wr))
+		cands = append(cands, genValidSwagger(c, v, wr, i%4 == 3))
 		withRefs = append(withRefs, wr)
 	}
 	// boundary corpus: required members present but empty
